@@ -1392,6 +1392,15 @@ class Interp:
                     out.append(format(v, spec))
                 elif isinstance(v, int) and not isinstance(v, bool) and spec.isdigit():
                     out.append(format(v, spec + 'd'))           # `{:02}`: zero-padded decimal
+                elif spec == '?' and isinstance(v, (str, int)):
+                    # Debug of a string: quoted, with the escapes of `str::escape_debug` for the characters that matter here; of an integer: the number
+                    if isinstance(v, bool):
+                        out.append('true' if v else 'false')
+                    elif isinstance(v, int):
+                        out.append(str(v))
+                    else:
+                        esc = {'"': '\\"', '\\': '\\\\', '\n': '\\n', '\t': '\\t', '\r': '\\r', '\0': '\\0'}
+                        out.append('"' + ''.join(esc.get(ch, ch) for ch in v) + '"')
                 else:
                     raise Unanalysable(f'format spec `{spec}`')
                 i = j + 1
